@@ -119,6 +119,12 @@ def judge(run, texts, meta, parsed, rt, model):
                     run.fail('unresolvable-reference-accepted' if faithful else 'unresolvable-reference', 'a reference of the accepted schema does not resolve (ResolvedSchema fails)', case)
             if meta[cid] == 'mutant':
                 run.nontrivial_case(txt)
+            try:
+                bad = sj.nonconforming_defaults(json.loads(txt), [])
+            except Exception:
+                bad = []
+            if bad:
+                run.fail('nonconforming-default-accepted' if faithful else 'nonconforming-default', 'field default(s) %s do not conform to the field schema, the schema is accepted' % str(bad[:2])[:120], case)
         else:
             if meta[cid] == 'valid':
                 # known class: the schema is accepted once its field defaults are removed, i.e. a default that conforms
